@@ -148,7 +148,7 @@ def update_opts(draw, state, allow_subdir=True, allow_cli=True,
 
 
 @st.composite
-def edits(draw, state, max_ops=4, min_ops=0):
+def edits(draw, state, max_ops=4, min_ops=0, retype=False):
     """File edits between update rounds (content/size change, add, delete)."""
     spec = state['tree']
     lay = {'manifests': []}
@@ -157,7 +157,7 @@ def edits(draw, state, max_ops=4, min_ops=0):
         spec, lay, state.get('manifests', []), min_ops=min_ops,
         max_ops=max_ops,
         kinds=['same-size', 'resize', 'delete', 'stray', 'stray',
-               'stray-dir']))
+               'stray-dir'] + (['file-to-dir'] if retype else [])))
 
 
 def build_prior(state, root):
